@@ -48,8 +48,13 @@ func applicable(m manifest, j *JobRec, st *StageDef) bool {
 		// enforcement levels; not a failure the property demands
 		return false
 	}
-	if (m.name == "missing-key" || m.name == "wrong-type" || m.name == "extra-key") && len(st.Outs) == 0 {
-		return false
+	switch m.name {
+	case "missing-key", "wrong-type", "extra-key", "truncated-outs", "invalid-json", "missing-outs":
+		// a stage without declared outputs has no outputs to get wrong: martian
+		// does not read its _outs, and the property does not ask it to
+		if len(st.Outs) == 0 && j.Phase != "split" {
+			return false
+		}
 	}
 	return true
 }
